@@ -120,7 +120,18 @@ func genHCase(t *rapid.T) HCase {
 	return c
 }
 
+// runHandover executes the case; when the target passes fewer window points than the drawn index, the case is executed
+// once more with the index folded into the number of points it did pass.
 func runHandover(t *testing.T, c HCase) (v *verdict, nontrivial bool, labels []string) {
+	var reached int
+	v, nontrivial, labels, reached = runHandoverAt(t, c, c.Point)
+	if v == nil && !nontrivial && reached > 0 {
+		v, nontrivial, labels, _ = runHandoverAt(t, c, c.Point%reached)
+	}
+	return
+}
+
+func runHandoverAt(t *testing.T, c HCase, point int) (v *verdict, nontrivial bool, labels []string, reachedN int) {
 	lab := map[string]bool{}
 	res := vt.Run(t, func() {
 		w := world.New(world.Options{SysDecisions: []string{"restart"}, SysStrategy: "one"})
@@ -258,7 +269,7 @@ func runHandover(t *testing.T, c HCase) (v *verdict, nontrivial bool, labels []s
 			}
 			k := reached
 			reached++
-			hit := k == c.Point
+			hit := k == point
 			if hit {
 				armed, site = false, s
 			}
@@ -288,6 +299,7 @@ func runHandover(t *testing.T, c HCase) (v *verdict, nontrivial bool, labels []s
 		armed = false
 		n := reached
 		mu.Unlock()
+		reachedN = n
 		if !isParked {
 			lab["point-not-reached"] = true
 			lab[fmt.Sprintf("points:%s=%d", c.Trigger, n)] = true
